@@ -185,3 +185,71 @@ def random_runs(rep, kind, scs, tag, seed, runs, variant="sched", key=None, env=
                           % (r["scen"], r.get("deadlock", 0), r.get("livelock", 0), r["runs"],
                              json.dumps(r.get("first", {}).get("state"))[:400]), r)
     return results, descs
+
+
+def trace_validate(rep, kind, scs, tag, seed, runs, invariants, key=None, variant="sched"):
+    """M2: real sessions (larger than the exhaustive configurations) under seeded random schedules, one ndjson line
+    per scheduler step; TLC checks that each recorded execution is a behaviour of the session spec and evaluates the
+    invariants in every state of it."""
+    key = key or tag
+    module = "ReadSessionTrace" if kind == "r" else "WriteSessionTrace"
+    exe, scen, descs = prepare(kind, scs, tag, variant)
+    d = os.path.join(vlib.WORK, "traces")
+    os.makedirs(d, exist_ok=True)
+    tr = os.path.join(d, tag + ".ndjson")
+    results, other, rc, err = vlib.run_driver(exe, ["random", scen, seed, runs, tr], timeout=1500,
+                                              env={"VERIF_BUDGET": "400000"})
+    if rc != 0 or len(results) != len(scs):
+        rep.violation("%s:trace:crash" % key, "trace driver failed rc=%s %s" % (rc, err[-400:]), dict(rc=rc))
+        return
+    for r in results:
+        if r.get("deadlock") or r.get("livelock"):
+            rep.violation("%s:trace:%s:hang" % (key, r["scen"]), "session '%s' hangs under a seeded schedule: %s"
+                          % (r["scen"], json.dumps(r.get("first", {}).get("state"))[:300]), r)
+    # split into one trace per run
+    traces = []
+    cur = None
+    with open(tr) as f:
+        for ln in f:
+            if ln.startswith('{"e":"Reset"'):
+                cur = [json.loads(ln)["scen"], []]
+                traces.append(cur)
+            cur[1].append(ln)
+    byname = {dd["name"]: dd for dd in descs}
+    from concurrent.futures import ThreadPoolExecutor
+
+    def one(i):
+        name, lines = traces[i]
+        p = os.path.join(d, "%s_%d.ndjson" % (tag, i))
+        with open(p, "w") as f:
+            f.writelines(lines)
+        mc = vlib.write_mc("MC_%s_%d" % (tag, i), module, "MCConfigs == {%s}" % S.tla(byname[name]))
+        cfg = os.path.join(vlib.WORK, "cfg", "%s_%d.cfg" % (tag, i))
+        with open(cfg, "w") as f:
+            f.write("SPECIFICATION TSpec\nCONSTANTS Configs <- MCConfigs\nINVARIANTS NotAccepted %s\nCHECK_DEADLOCK FALSE\n"
+                    % " ".join(invariants))
+        res = vlib.run_tlc(mc, cfg, "%s_%d" % (tag, i), workers=1, timeout=900, env={"TRACE": p}, heap="4g")
+        return i, name, len(lines), res
+
+    ok = 0
+    with ThreadPoolExecutor(max_workers=8) as ex:
+        for i, name, n, res in ex.map(one, range(len(traces))):
+            rep.add_tlc(res)
+            v = res["violated"] or ""
+            if "NotAccepted" in v:
+                ok += 1                      # the whole trace was consumed
+                rep.cov["evaluations"] += n
+            elif "violated" in v:
+                rep.violation("%s:trace:%s:%s" % (key, name, v.split()[1]), "recorded execution of '%s' (run %d, %d steps) "
+                              "violates %s" % (name, i, n, v), dict(trace=os.path.join(d, "%s_%d.ndjson" % (tag, i))))
+            elif res["rc"] == 0:
+                # TLC finished without reaching the end of the trace: some step is not a step of the spec
+                rep.violation("%s:trace:%s:rejected" % (key, name), "recorded execution of '%s' (run %d) is not a behaviour "
+                              "of %s: only %d of %d lines matched" % (name, i, module[:-5], res["distinct"], n),
+                              dict(trace=os.path.join(d, "%s_%d.ndjson" % (tag, i)), matched=res["distinct"]))
+            else:
+                vlib.tlc_must_pass(res, "%s_%d" % (tag, i))
+    rep.cov["traces_validated_against_impl"] += ok
+    rep.cov.setdefault("m2", []).append(dict(spec=module, tag=tag, traces=len(traces), accepted=ok))
+    if traces:
+        rep.cov["samples"].append(dict(kind="M2 trace line", line=json.loads(traces[0][1][min(5, len(traces[0][1]) - 1)])))
